@@ -1456,7 +1456,8 @@ def ispatterntype(t: tp.Any) -> compat.TypeIs[re.Pattern]:
         >>> ispatterntype(r"^[a-z]+$")
         False
     """
-    return _safe_issubclass(t, re.Pattern)
+    # `typing.Pattern` and `re.Pattern[str]` are the same type as `re.Pattern`.
+    return _safe_issubclass(tp.get_origin(t) or t, re.Pattern)
 
 
 @compat.cache
